@@ -137,3 +137,39 @@ Theorem c18_checker_sound_complete : forall w ps rs,
   (w = true -> existsb has_ids ps = true -> nonempty rs = true).
 Proof. exact check_obs_nil. Qed.
 Print Assumptions c18_checker_sound_complete.
+
+(* ---- roster files (Roster.Toml / WriteTomlConfig, ReadTomlConfig / RosterToml.Roster) ----
+   the ID field that was written comes back as it is -- whether or not it is the id
+   NewRoster would derive from the list -- with public key and address of every member *)
+Theorem c18_roster_file_roundtrip : forall id ids,
+  roster_file_roundtrip id ids = GOk (map strip_identity ids) (RId id).
+Proof. exact roster_file_roundtrip_spec. Qed.
+Print Assumptions c18_roster_file_roundtrip.
+
+Theorem c18_roster_file_roundtrip_bare : forall id ids,
+  Forall identity_bare ids -> roster_file_roundtrip id ids = GOk ids (RId id).
+Proof. exact roster_file_roundtrip_bare. Qed.
+Print Assumptions c18_roster_file_roundtrip_bare.
+
+(* C18-N1 (known finding): per-service keys do not come back from a roster file, and the
+   id that was written is then not the id of the list that was read, for every hash
+   function, unless SHA-256 / uuid-SHA1 collide on exactly these two pre-images *)
+Theorem c18_roster_file_services_refuted :
+  exists ids, forall H256 U5, exists a got,
+    new_roster H256 U5 (map gmember_of ids) = RId a /\
+    roster_file_roundtrip a ids = GOk got (RId a) /\
+    got <> ids /\
+    exists a', new_roster H256 U5 (map gmember_of got) = RId a' /\
+      (a' = a ->
+       Collision H256 (roster_pre (roster_of got)) (roster_pre (roster_of ids)) \/
+       Collision U5 (roster_uuid_pre H256 (roster_of got)) (roster_uuid_pre H256 (roster_of ids))).
+Proof. exact roster_file_services_refuted. Qed.
+Print Assumptions c18_roster_file_services_refuted.
+
+Theorem c18_roster_file_checker : forall stored ids rs,
+  check_roster_file stored ids rs = [] <->
+  rs <> [] /\ all_equal_g rs = true /\
+  forall r, In r rs -> exists got ro, r = GOk got ro /\ res_eqb ro (RId stored) = true /\
+                                     list_eqb identity_eqb ids got = true.
+Proof. exact check_roster_file_nil. Qed.
+Print Assumptions c18_roster_file_checker.
